@@ -164,7 +164,9 @@ plan("C06", "fault_enumeration",
      "Non-trivial: mutant got past the wrapper and produced output.",
      lambda tier: [S("C06", 5000), S("C06", 400, cfg="nostatic"), F("C06", 1000)] if tier == "quick" else [S("C06", 80000), S("C06", 6000, cfg="nostatic"), F("C06", 20000)],
      assumptions=["error-class equality is asserted only for constructed single faults followed by >= 16 padding bytes", "incomplete code sets are a grey zone: neither acceptance nor rejection is an alarm",
-                  "rejection of something the lenient reference accepts is never an alarm"])
+                  "rejection of something the lenient reference accepts is never an alarm"],
+     engine_name="pbt-tape (rapidcheck) + coverage-guided stage (libFuzzer, ASan) over the same bodies",
+     technique="property-based testing (rapidcheck generators + shrinking) and coverage-guided fuzzing (libFuzzer with AddressSanitizer; input bytes decode to the same choice tape), both against an independent oracle")
 
 plan("C19", "exploration",
      "Writers: generated gzip field values/optional-field subsets (extra to 65535 bytes) and zlib (info 0-15, level, dict flag/id) x output sizes around the required size, compared with an independent RFC 1952/1950 "
